@@ -56,6 +56,10 @@ func (g *gen) needDerivedVar(name t.ID) bool {
 				//
 				// TODO: use a comprehensive list of such methods.
 				switch meth {
+				case t.IDLimitedCopyU32FromReader:
+					if recv.MType().Eq(typeExprIOWriter) && argsContainsArgsDotFoo(args, name) {
+						return errNeedDerivedVar
+					}
 				case t.IDLimitedSwizzleU32InterleavedFromReader,
 					t.IDSwizzleInterleavedFromReader:
 					if recv.MType().Eq(typeExprPixelSwizzler) && argsContainsArgsDotFoo(args, name) {
